@@ -169,6 +169,8 @@ type Machine struct {
 	cliSt        *cliState
 	fs           map[string]*fsEntry
 	notExistErrs map[*Value]bool
+	httpSt       *httpState
+	stdioMark    int
 }
 
 func (m *Machine) addPC(t *Term) {
